@@ -168,6 +168,15 @@ class CanaryFixtures(object):
 # ---------------------------------------------------------------------------------------------
 # workloads
 # ---------------------------------------------------------------------------------------------
+FILTER = None     # replay: dict of context keys an execution must match to be run at all
+
+
+def _want(**ctx):
+    if FILTER is None:
+        return True
+    return all(FILTER.get(k) in (None, v) for k, v in ctx.items())
+
+
 def grid_workload(part, tier, shard, nshards):
     """The C13 grid over canary objects."""
     with CanaryFixtures():
@@ -195,6 +204,8 @@ def grid_workload(part, tier, shard, nshards):
                         if not c13._vok(vc, version):
                             continue
                         for user in ('alice', 'bob'):
+                            if not _want(target=tlabel, probe=label, version=list(version), user=user):
+                                continue
                             w = w0.clone()
                             try:
                                 try:
@@ -262,6 +273,8 @@ def decode_failure_workload(part, tier, shard, nshards):
                         n += 1
                         if n % nshards != shard:
                             continue
+                        if not _want(request=name, mutation=label, version=list(v)):
+                            continue
                         for cert in (('alice',), ()):
                             w = base.clone()
                             try:
@@ -296,6 +309,8 @@ def client_workload(part, tier):
             for opname in table:
                 for version in ([(1, 2), (2, 0)] if tier == 'quick' else W.VERSIONS):
                     if opname in c19.OPS20 and version != (2, 0):
+                        continue
+                    if not _want(op=opname, version=list(version)):
                         continue
                     w = w0.clone()
                     try:
@@ -356,6 +371,8 @@ def config_workload(part, tier):
     w0, ids = c19.base()
     try:
         for i, shape in enumerate(SECRET_SHAPES):
+            if not _want(shape=shape):
+                continue
             secret = shape.format(c=pw)
             path = os.path.join(tmp, 'pykmip-%d.conf' % i)
             with open(path, 'w') as f:
@@ -503,4 +520,27 @@ def run(tier, seed):
 
 
 def replay(doc):
-    return False, 'C20 replays by re-running the check (the monitor needs the whole workload context)'
+    """Re-runs the workload the violation came from, restricted to the recorded execution."""
+    global FILTER
+    wl = doc.get('workload')
+    keys = {'grid': ('target', 'probe', 'version', 'user'), 'decode': ('request', 'mutation', 'version'),
+            'client': ('op', 'version'), 'config': ('shape',)}.get(wl)
+    if keys is None:
+        return False, 'unknown workload %r' % wl
+    FILTER = {k: doc.get(k) for k in keys}
+    part = Part()
+    logging.getLogger().setLevel(logging.INFO)
+    try:
+        if wl == 'grid':
+            grid_workload(part, 'thorough', 0, 1)
+        elif wl == 'decode':
+            decode_failure_workload(part, 'thorough', 0, 1)
+        elif wl == 'client':
+            client_workload(part, 'thorough')
+        else:
+            config_workload(part, 'thorough')
+    finally:
+        FILTER = None
+    v = part.violations
+    return bool(v), '\n'.join("%s: %s" % (k, t) for k, t, _ in v[:10]) or (
+        'no violation (%d executions re-run)' % part.counters.get('executions', 0))
